@@ -269,6 +269,16 @@ func builtinJSONStringifyWalk(ctx builtinJSONStringifyContext, key string, holde
 					panic(ctx.call.runtime.panicTypeError("Converting circular structure to JSON"))
 				}
 			}
+			// The nesting counts like calls do: a replacer (or toJSON) that
+			// returns a new container every time would otherwise recurse without
+			// end, and nothing polls the interrupt channel in here.
+			limit := ctx.call.runtime.stackLimit
+			if limit == 0 {
+				limit = 10000
+			}
+			if len(ctx.stack) > limit {
+				panic(ctx.call.runtime.panicRangeError("Maximum call stack size exceeded"))
+			}
 			ctx.stack = append(ctx.stack, value)
 			defer func() { ctx.stack = ctx.stack[:len(ctx.stack)-1] }()
 		}
